@@ -108,8 +108,10 @@ Definition law_filter (l : list dcmd) (obs : list (nat * bool)) (jobreqs queuere
 (* ---------- the request and the incarnation of the target (TargetObject.UID) ----------
    observed: number of requests, how many carry the UID the Command's TargetObject has, how
    many carry a different non-empty UID *)
-(* unsigned: no request names ANOTHER incarnation *)
-Definition law_uid_X (nreq carried wrong : nat) : bool := bool_decide (wrong = 0%nat).
-(* signed (finding C20-target-uid-not-checked): every request identifies the incarnation the
-   Command was issued for *)
-Definition law_uid_Y (nreq carried wrong : nat) : bool := bool_decide (carried + wrong = nreq)%nat.
+(* unsigned: no request names ANOTHER incarnation, and not "some requests carry the UID, some do not" *)
+Definition law_uid_X (nreq carried wrong : nat) : bool :=
+  bool_decide (wrong = 0%nat) && (bool_decide (carried = 0%nat) || bool_decide (carried = nreq)).
+(* signed (finding C20-target-uid-not-checked, as described: NEITHER controller reads the UID):
+   fails exactly when requests exist and none of them carries a UID *)
+Definition law_uid_Y (nreq carried wrong : nat) : bool :=
+  bool_decide (nreq = 0%nat) || negb (bool_decide (carried = 0%nat) && bool_decide (wrong = 0%nat)).
